@@ -3,6 +3,7 @@ package main
 import (
 	"fmt"
 	"math/rand/v2"
+	"sort"
 
 	"github.com/gotd/td/telegram/message/entity"
 	"github.com/gotd/td/tg"
@@ -40,6 +41,26 @@ func checkOrder(es []tg.MessageEntityClass) (int, string) {
 		}
 	}
 	return -1, ""
+}
+
+// knownDefect is the comparator gotd/td ships today (known finding of C36): not a strict weak
+// order. sort.Sort is deterministic for a given input sequence and toolchain, and the engine is
+// built with the toolchain that builds gotd/td, so sorting a copy of the same input with this
+// comparator reproduces the shipped behaviour element for element.
+type knownDefect []tg.MessageEntityClass
+
+func (e knownDefect) Len() int      { return len(e) }
+func (e knownDefect) Swap(i, j int) { e[i], e[j] = e[j], e[i] }
+func (e knownDefect) Less(i, j int) bool {
+	a, b := e[i], e[j]
+	return a.GetOffset() < b.GetOffset() || a.GetLength() > b.GetLength()
+}
+
+// knownDefectOrder returns what sort.Sort yields on a copy of in with the known comparator.
+func knownDefectOrder(in []tg.MessageEntityClass) []tg.MessageEntityClass {
+	ref := append([]tg.MessageEntityClass(nil), in...)
+	sort.Sort(knownDefect(ref))
+	return ref
 }
 
 // samePointers: out is a permutation of in (entities are pointers; identity is what must be preserved).
@@ -89,6 +110,18 @@ func c36List(k *collector, class string, list []tg.MessageEntityClass) {
 		}
 	}
 	if i, kind := checkOrder(list); i >= 0 {
+		// a disorder that is element-for-element (pointer identity) what the known non-order
+		// comparator produces on this very input is the known finding; anything else is not
+		ref, same := knownDefectOrder(in), true
+		for j := range ref {
+			if j >= len(list) || ref[j] != list[j] {
+				same = false
+				break
+			}
+		}
+		if same && len(ref) == len(list) {
+			kind = "matches-known-non-order-comparator"
+		}
 		k.violate("sort-entities|"+kind, wit(map[string]any{"first_bad_adjacent_pair": i}))
 	}
 	// non-trivial: ≥ 2 entities that are not already in order
@@ -107,6 +140,74 @@ func c36List(k *collector, class string, list []tg.MessageEntityClass) {
 			k.add("lists_not_presorted", 1)
 		}
 	}
+}
+
+// completePreSort reconstructs the list Complete hands to its sort: the same program is run again
+// on a fresh Builder and finished with Raw (entities in the builder's own order, nothing trimmed);
+// then the documented fix step is applied with the text Complete actually returned — if that text
+// is shorter, entities starting past its end are dropped and entities reaching past it are cut to
+// it, order kept. If the reconstruction is wrong for any reason the comparison below fails and the
+// violation keeps its specific signature (it can only fail towards "not the known finding").
+func completePreSort(p *program, completeMsg string) ([]tg.MessageEntityClass, bool) {
+	p2 := *p
+	p2.Final = "raw"
+	var (
+		b      entity.Builder
+		rawMsg string
+		raw    []tg.MessageEntityClass
+		err    error
+	)
+	if pv, _ := mon.Try(func() { rawMsg, raw, err = execProgram(&b, &p2) }); pv != nil || err != nil {
+		return nil, false
+	}
+	if len(completeMsg) >= len(rawMsg) {
+		return raw, true
+	}
+	end := u16len(completeMsg)
+	out := raw[:0]
+	for _, e := range raw {
+		if e.GetOffset() > end {
+			continue
+		}
+		if e.GetOffset()+e.GetLength() > end {
+			e = withLength(e, end-e.GetOffset())
+		}
+		out = append(out, e)
+	}
+	return out, true
+}
+
+// withLength returns a copy of the entity (same type and payload key) with another length.
+func withLength(e tg.MessageEntityClass, ln int) tg.MessageEntityClass {
+	return &relen{MessageEntityClass: e, ln: ln}
+}
+
+type relen struct {
+	tg.MessageEntityClass
+	ln int
+}
+
+func (r *relen) GetLength() int { return r.ln }
+
+// sameEntities: same length and element-for-element the same type/payload key, offset and length
+// (the two lists come from two runs, so pointer identity is not available).
+func sameEntities(a, b []tg.MessageEntityClass) bool {
+	if len(a) != len(b) {
+		return false
+	}
+	for i := range a {
+		x, y := a[i], b[i]
+		if r, ok := x.(*relen); ok {
+			if entityKey(r.MessageEntityClass) != entityKey(y) || r.GetOffset() != y.GetOffset() || r.ln != y.GetLength() {
+				return false
+			}
+			continue
+		}
+		if entityKey(x) != entityKey(y) || x.GetOffset() != y.GetOffset() || x.GetLength() != y.GetLength() {
+			return false
+		}
+	}
+	return true
 }
 
 func genList(r *rand.Rand) (string, []tg.MessageEntityClass) {
@@ -138,6 +239,8 @@ func runC36(c *mon.Ctx) {
 		"(b) random lists of 0..40 entities of 6 types, offsets/lengths from tiny ranges (forced ties), wide ranges, mixed, and shuffled nested families; " +
 		"(c) the output of Builder.Complete for the C35 program generator (nesting, overlaps, trims). Oracle: adjacent pairs have ascending offset and, at equal offset, non-ascending length; " +
 		"the output is the same multiset of entity pointers with untouched ranges. distinct non-trivial = distinct (class, list length, has-offset-ties) among inputs that are not already ordered")
+	c.Assume("signature refinement only (never the verdict): a disordered output that equals, element for element, what sort.Sort gives on the same input with the shipped comparator (off< || len>) is labelled matches-known-non-order-comparator; " +
+		"for Complete the pre-sort list is reconstructed by re-running the program with Raw and applying the documented trim step with the returned text; any other disorder keeps offset-descending / shorter-first-at-equal-offset")
 	c.Assume("only offset/length order is demanded (the statement says nothing about the order of entities with identical ranges)")
 	// (a) exhaustive small core
 	var lists [][]tg.MessageEntityClass
@@ -158,7 +261,7 @@ func runC36(c *mon.Ctx) {
 	runCases(c, len(lists), func(i int, k *collector) { c36List(k, "exhaustive<=5", lists[i]) })
 	c.Exhaustive(true)
 	// (b) random lists
-	n := c.N(150000, 5000000)
+	n := c.N(150000, 15000000)
 	for i := 0; i < 2; i++ {
 		class, l := genList(c.RandN("c36", i))
 		c.Sample("random-list", map[string]any{"class": class, "input": entRecs(l)})
@@ -168,7 +271,7 @@ func runC36(c *mon.Ctx) {
 		c36List(k, class, l)
 	})
 	// (c) builder outputs
-	nb := c.N(100000, 3000000)
+	nb := c.N(100000, 8000000)
 	runCases(c, nb, func(i int, k *collector) {
 		c35Case(c, i, k, func(p *program, m *model, msg string, ents []tg.MessageEntityClass, stage string) checkResult {
 			res := checkResult{nents: len(ents), trimmed: u16len(msg) < m.len16}
@@ -182,9 +285,17 @@ func runC36(c *mon.Ctx) {
 				}
 			}
 			if i, kind := checkOrder(ents); i >= 0 {
+				var recon []entRec
+				if pre, ok := completePreSort(p, msg); ok {
+					recon = entRecs(knownDefectOrder(pre))
+					if sameEntities(knownDefectOrder(pre), ents) {
+						kind = "matches-known-non-order-comparator"
+					}
+				}
 				k.violate("complete|"+kind, func() any {
 					w := p.describe()
 					w["text"], w["entities"], w["first_bad_adjacent_pair"] = q(msg), entRecs(ents), i
+					w["known_comparator_on_reconstructed_presort_list"] = recon
 					return w
 				})
 			}
